@@ -64,7 +64,9 @@ func specialScenarios() []specialScenario {
 		logPlus([]absIng{{"k/", 1}, {"k/r1", 2}, {"k", 1}}, []absIng{{"/k", 1}, {"k//r1", 2}, {"tea/", 1}, {"tea", 1}}))
 	add("names-prefix-and-case-pairs", true, bookPlus(absRecipe{"bread", []absIng{{"cal", 2}}}, absRecipe{"bread/rye", []absIng{{"cal", 3}, {"Cal", 1}}}),
 		logPlus([]absIng{{"coffee", 1}, {"coffee/cup", 2}, {"Coffee", 1}, {"bread", 1}}, []absIng{{"coffee/cup/large", 1}, {"coffee/cup", 1}, {"bread/rye", 2}, {"Bread", 1}}))
-	add("names-continued-below-the-separator", true, bookPlus(absRecipe{"coffee-decaf/cup", []absIng{{"cal", 1}}}, absRecipe{"coffee/cup", []absIng{{"cal", 2}}}),
+	add("names-continued-below-the-separator", true, bookPlus(absRecipe{"coffee-decaf/cup", []absIng{{"cal", 1}}}, absRecipe{"coffee/cup", []absIng{{"cal", 2}}},
+		absRecipe{"bread rolls", []absIng{{"cal", 3}}}, absRecipe{"bread", []absIng{{"cal", 2}, {"cal extra", 1}}}, absRecipe{"soup, clear", []absIng{{"cal", 1}}}, absRecipe{"soup", []absIng{{"cal", 4}}},
+		absRecipe{"a!b", []absIng{{"fat", 1}}}, absRecipe{"a", []absIng{{"fat", 2}, {"fat (sat)", 1}}}, absRecipe{"a+b", []absIng{{"fat", 4}}}),
 		logPlus([]absIng{{"coffee/cup", 1}, {"coffee-decaf/cup", 2}, {"milk 2%/glass", 1}, {"milk/glass", 2}}, []absIng{{"ice.cream/cone", 1}, {"ice/cube", 4}, {"coffee/cup", 1}, {"a!b/c", 1}, {"a/c", 2}}))
 	add("names-repeated-segment", true, specialBaseBook, logPlus([]absIng{{"tea/tea", 2}, {"bread/white/bread/slice", 1}}, []absIng{{"bread/white/bread/loaf", 1}, {"tea/tea/tea", 1}}))
 	name23, name30 := "cheese/gouda/aged/slice", "a/rather/long/name/of/30/chars"
@@ -79,6 +81,11 @@ func specialScenarios() []specialScenario {
 		logPlus([]absIng{{"u", -2}, {"z0", 1}, {"zero", 0}, {"r1", -1.5}}, []absIng{{"z1", 1}, {"r2", 0}, {"neg0", math.Copysign(0, -1)}, {"a/b", -2}}))
 	add("quantities-on-rounding-ties", false, bookPlus(absRecipe{"ties", []absIng{{"a", 0.25}, {"b", -0.25}, {"c", 1.115}, {"d", 2.675}, {"e", 1.005}}}),
 		logPlus([]absIng{{"ties", 0.5}, {"direct", 0.125}}, []absIng{{"ties", 1.5}, {"direct", 1.115}, {"tiny", 0.004}, {"tinyneg", -0.004}}))
+	// amounts of one food that differ below the printed precision (0.333 and 0.334; 1.251 and 1.254; 0.001 and 0), on
+	// different days and twice on the same date: whatever is remembered per food and printed amount is remembered wrongly
+	add("quantities-equal-at-the-printed-precision", false, bookPlus(absRecipe{"rye", []absIng{{"cal", 259}, {"prot", 8.5}}}),
+		absLog{{Date: "2021/03/01", Entries: []absIng{{"rye", 0.333}, {"r1", 1.251}, {"u", 0.001}}}, {Date: "2021/03/02", Entries: []absIng{{"rye", 0.334}, {"r1", 1.254}, {"u", 0}}},
+			{Date: "2021/03/02", Entries: []absIng{{"rye", 0.3349}, {"r2", 0.004}}}, {Date: "2021/03/03", Entries: []absIng{{"rye", 0.3351}, {"r2", 0}}}})
 	add("quantities-long-and-extreme", false, bookPlus(absRecipe{"big", []absIng{{"cal", 94.05090880450125}, {"fat", 1e15}}}),
 		logPlus([]absIng{{"big", 1}, {"many/digits", 30.091186058528706}, {"huge", 9007199254740993}}, []absIng{{"small", 1e-7}, {"big", 0.001}}))
 	add("quantities-non-finite", false, bookPlus(absRecipe{"nf", []absIng{{"cal", math.Inf(1)}, {"fat", math.NaN()}}}),
